@@ -286,7 +286,8 @@ fn parse_at_rule(
                 while let Ok(peek) = input.peek() {
                     match &*peek {
                         Token::Function(x) => {
-                            let xs: &str = &x;
+                            // (function names are ASCII case-insensitive: `LAYER(…)`, `Supports(…)`)
+                            let xs: &str = &x.to_ascii_lowercase();
                             if !matches!(xs, "layer" | "supports") {
                                 ss.add_warning(
                                     error::ParseErrorKind::UnexpectedCharacter,
